@@ -47,9 +47,17 @@ def generate(g, tier):
         wrap = r.choice([None, None, 'IF TRUE', 'REPEAT 2'])
         gid += 1
         unit = g.units()
+        # the same three spellings in a text whose lines end in CR LF (given as one string, or as a list of lines that still carry
+        # their carriage return): whatever a carriage return at the end of an argument means, it means the same in every spelling
+        crlf = r.choice([None, None, None, None, None, None, 'text', 'lines'])
         for k, sp in enumerate(spellings(word, args, unit, 1 if wrap else 0)):
             text = pre.replace('    ', unit) + ((wrap + '\n') if wrap else '') + sp + '\n$STRING "end"'
-            cases.append(dict(op='compile', src=dict(text=text), meta=dict(family='spelling', group=gid, form=k, cmd=cmd, args=args)))
+            if crlf == 'text':
+                cases.append(dict(op='compile', src=dict(text=text.replace('\n', '\r\n')), meta=dict(family='spelling', group=gid, form=k, cmd=cmd, args=args, nocorr=True)))
+            elif crlf == 'lines':
+                cases.append(dict(op='compile', src=dict(lines=[l + '\r' for l in text.split('\n')]), meta=dict(family='spelling', group=gid, form=k, cmd=cmd, args=args, nocorr=True)))
+            else:
+                cases.append(dict(op='compile', src=dict(text=text), meta=dict(family='spelling', group=gid, form=k, cmd=cmd, args=args)))
     # verbatim text keeps its indentation relative to the quotes
     for _ in range(count(tier, 200, 2000)):
         unit = g.units()
